@@ -108,3 +108,43 @@ Lemma C05_shared_id_refuted :
   remove_first 7 [(7, 1%nat); (7, 0%nat)] = [(7, 0%nat)] /\
   remove_first 8 [(7, 1%nat); (8, 0%nat)] = [(7, 1%nat)].
 Proof. split; reflexivity. Qed.
+
+(* Seeded change `partial_reregister_by_task_id`: the Sleep remembers the tokio TASK that registered
+   it and takes a new waker only when it is polled under a different task id.  Waker identity is
+   finer than task identity: wakers are written as numbers, [task_of w] is the task that waker
+   w wakes (here w / 2: 2k is task k's own waker, 2k + 1 the waker that a sub-executor running
+   in task k hands to its child).  Polled first under waker 0, then under waker 1 -- both of
+   task 0 -- the entry keeps waker 0: at the deadline the task is woken, but its sub-executor is
+   never told that its child is due, and the await does not return.  The code as it is
+   (poll_seq true: Waker::will_wake decides) stores waker 1. *)
+Definition sleep_poll_waker_by_task (task_of : nat -> nat) (now : N) (w : nat) (s : sleep) (tab : wakers) : wakers :=
+  if now <? deadline s then
+    match handle s with
+    | None => (sid s, w) :: tab
+    | Some _ => match waker_of tab (sid s) with
+                | Some w0 => if Nat.eqb (task_of w0) (task_of w) then tab else (sid s, w) :: tab
+                | None => (sid s, w) :: tab
+                end
+    end
+  else tab.
+
+Fixpoint poll_seq_by_task (task_of : nat -> nat) (polls : list (N * nat)) (s : sleep) (dr : driver) (tab : wakers)
+  : sleep * driver * wakers :=
+  match polls with
+  | [] => (s, dr, tab)
+  | (t, w) :: r =>
+    let tab' := sleep_poll_waker_by_task task_of t w s tab in
+    let '(_, s', dr') := sleep_poll t s dr in
+    poll_seq_by_task task_of r s' dr' tab'
+  end.
+
+Lemma C05_reregister_by_task_id_refuted :
+  exists polls s, handle s = None /\ Forall (fun p => fst p < deadline s) polls /\
+    waker_of (snd (poll_seq true polls s new_driver [])) (sid s) = Some 1%nat /\
+    waker_of (snd (poll_seq_by_task Nat.div2 polls s new_driver [])) (sid s) = Some 0%nat /\
+    (* ... while a hand-over to ANOTHER task (wakers 0 and 2) does work under that rule *)
+    waker_of (snd (poll_seq_by_task Nat.div2 [(0, 0%nat); (0, 2%nat)] s new_driver [])) (sid s) = Some 2%nat.
+Proof.
+  exists [(0, 0%nat); (0, 1%nat)], (sleep_new 10 7).
+  split; [reflexivity|]. split; [repeat constructor|]. vm_compute. repeat split; reflexivity.
+Qed.
